@@ -1,12 +1,77 @@
 import DymVerif.Driver.Common
+import DymVerif.Model.Determinism
 namespace DymVerif.Driver.C12
-open DymVerif.Driver
+open DymVerif.Driver DymVerif.Det
 
-/-- the model side of C12 is degenerate: every model `step` is a function, so two replicas of the
-    model agree on every history; the driver states that expectation for each replica line -/
+/-
+  Driver/C12 — two kinds of lines.
+  `replica …`: the model side of the multi-process comparison is degenerate (every model `step` is a
+  function, so two replicas of the model agree on every history); the driver states that expectation.
+  `shape <class> k=v …`: the executable loop shapes of Model/Determinism.lean, evaluated on the
+  enumeration order given on the line (`enum=k:v,k:v,…`, a permutation chosen by the harness); the
+  harness runs the real Go function on a real Go map with the same entries — whatever order the Go
+  runtime picks, the two must agree.
+-/
+
+def kv (f : List String) (k : String) : String :=
+  match f.find? (fun t => t.startsWith (k ++ "=")) with
+  | some t => (t.drop (k.length + 1)).toString
+  | none => "-"
+
+def nats (t : String) : List Nat :=
+  if t = "-" || t = "" then [] else (t.splitOn ",").map nat!
+
+def enum! (t : String) : Enum :=
+  if t = "-" || t = "" then [] else (t.splitOn ",").map (fun x =>
+    match x.splitOn ":" with
+    | [k, v] => (nat! k, nat! v)
+    | [k] => (nat! k, 0)
+    | _ => (0, 0))
+
+def showNats (l : List Nat) : String := if l.isEmpty then "-" else ",".intercalate (l.map toString)
+
+def showRecs (l : List (Nat × Nat)) : String :=
+  if l.isEmpty then "-" else ",".intercalate (l.map fun e => s!"{e.1}:{e.2}")
+
+def showOut : Out → String
+  | .keys l => showNats l
+  | .recs l => showRecs l
+  | .flag b => if b then "true" else "false"
+  | .total n => toString n
+  | .nothing => "nothing"
+
+def shape (f : List String) : String :=
+  let m := enum! (kv f "enum")
+  match f with
+  | "sort" :: _ => showOut (Shape.collectThenSort.eval {} m)
+  | "sortbykey" :: _ =>
+    let keep : Nat × Nat → Bool := if kv f "keep" = "nonzero" then (fun e => e.2 != 0) else (fun _ => true)
+    showOut (Shape.collectFilteredSortByKey.eval { keep := keep } m)
+  | "distinct" :: _ =>
+    -- `Distinct`: the map is built from the address list; `enum` must be one of its enumerations
+    let l := nats (kv f "list")
+    if !(m.isPerm (mapOfList (l.map fun a => (a, a)))) then "bad-enum" else
+    showNats ((collectFilteredSortByKey (fun _ => true) m).map (·.1))
+  | "distr" :: _ =>
+    -- `UpdateDistrRecords`: the map is built from the old records, then the update's
+    if !(m.isPerm (mapOfList (enum! (kv f "old") ++ enum! (kv f "upd")))) then "bad-enum" else
+    match updateDistrRecords m with
+    | some r => showRecs r
+    | none => "err"
+  | "member" :: _ =>
+    match moduleAccountAddrs m (nats (kv f "excl")) (nat! (kv f "probe")) with
+    | some true => "true" | some false => "false" | none => "absent"
+  | "fold" :: _ => showOut (Shape.foldComm.eval {} m)
+  | "shuffle" :: _ =>
+    -- the permutation `rand.Shuffle` produced for the message's seed is an oracle on the line
+    let perm := nats (kv f "perm")
+    showOut (Shape.seededShuffle.eval { prng := fun _ _ => perm, txSeed := nat! (kv f "rng") } m)
+  | _ => "bad-op"
+
 def step (_ : Unit) (f : List String) : Unit × String :=
   ((), match f with
   | "replica" :: _ => "equal"
+  | "shape" :: rest => shape rest
   | _ => "bad-op")
 
 def drv : Drv := { σ := Unit, init := (), step := step }
